@@ -23,7 +23,7 @@ pub const TOP_FIELDS: &[&str] = &[
 pub const NEST_HOLDERS: &[&str] = &["o1", "objs", "o1.p", "objs[0]"];
 pub const INNER_FIELDS: &[&str] = &["x", "y", "n", "p.q", "x", "y"];
 pub const CAST_FIELDS: &[&str] = &["n1", "n2", "f1", "b1", "o1.x", "arr[0]", "z1"];
-pub const IDENT_NAMES_PLAIN: &[&str] = &["A", "B", "C", "D", "E"];
+pub const IDENT_NAMES_PLAIN: &[&str] = &["A", "B", "C", "D", "E", "F"];
 pub const IDENT_NAMES_KEYWORDY: &[&str] =
     &["android", "order", "nothing", "allow", "offline", "integer", "stringent", "notes", "flt1", "of_x"];
 
@@ -543,7 +543,7 @@ pub fn rule_focus(with_neg: bool) -> BoxedStrategy<RuleSpec> {
         3 => blk.clone().prop_map(Body::Map),
         2 => prop::collection::vec(blk, 2..=4).prop_map(Body::Seq),
     ];
-    (prop::collection::vec(body, 2..=4), 0u8..8, any::<u8>())
+    (prop::collection::vec(body, 2..=6), 0u8..12, any::<u8>())
         .prop_map(move |(bodies, form, bits)| {
             let names: Vec<String> = IDENT_NAMES_PLAIN.iter().take(bodies.len()).map(|s| s.to_string()).collect();
             let lit = |i: usize| -> CondSpec {
@@ -592,6 +592,40 @@ pub fn rule_focus(with_neg: bool) -> BoxedStrategy<RuleSpec> {
                     }
                     c
                 }
+                8 | 9 => {
+                    // (A and B and C) or D or E ...: a conjunction of three inside a disjunction
+                    let k = names.len().min(3);
+                    let mut c = lit(0);
+                    for i in 1..k {
+                        c = CondSpec::And(Box::new(c), Box::new(lit(i)));
+                    }
+                    let mut c = CondSpec::Paren(Box::new(c));
+                    for i in k..names.len() {
+                        c = CondSpec::Or(Box::new(c), Box::new(lit(i)));
+                    }
+                    if with_neg && form == 9 {
+                        CondSpec::Not(Box::new(CondSpec::Paren(Box::new(c))))
+                    } else {
+                        c
+                    }
+                }
+                10 | 11 => {
+                    // (A or B or C) and D and E ...
+                    let k = names.len().min(3);
+                    let mut c = lit(0);
+                    for i in 1..k {
+                        c = CondSpec::Or(Box::new(c), Box::new(lit(i)));
+                    }
+                    let mut c = CondSpec::Paren(Box::new(c));
+                    for i in k..names.len() {
+                        c = CondSpec::And(Box::new(c), Box::new(lit(i)));
+                    }
+                    if with_neg && form == 11 {
+                        CondSpec::Not(Box::new(CondSpec::Paren(Box::new(c))))
+                    } else {
+                        c
+                    }
+                }
                 4 => {
                     if with_neg {
                         CondSpec::Not(Box::new(CondSpec::Paren(Box::new(chain(true)))))
@@ -612,10 +646,159 @@ pub fn rule_focus(with_neg: bool) -> BoxedStrategy<RuleSpec> {
         .boxed()
 }
 
+/// Every identifier is a nested block (or a sequence of nested blocks) on ONE holder field, combined
+/// by a random condition over 3-6 identifiers: the shape in which shake merges nested blocks of
+/// conjunctions and disjunctions and the solver evaluates them across the elements of an array.
+pub fn rule_nested_focus(with_neg: bool) -> BoxedStrategy<RuleSpec> {
+    let inner_entry = (prop::sample::select(vec!["x", "y", "n", "x", "y"]), prop_oneof![
+        4 => "[ab]{1,2}".prop_map(ValSpec::Str),
+        1 => "[ab]".prop_map(|n| ValSpec::Str(format!("*{n}*"))),
+        1 => small_int().prop_map(ValSpec::Int),
+        1 => prop::collection::vec("[ab]{1,2}".prop_map(ValSpec::Str), 2..=3).prop_map(ValSpec::List),
+    ])
+        .prop_map(|(f, v)| Entry { key: KeySpec::plain(f), val: v });
+    let inner_block = prop::collection::vec(inner_entry, 1..=2).prop_map(|es| {
+        let mut seen: Vec<String> = vec![];
+        Block(
+            es.into_iter()
+                .filter(|e| {
+                    if seen.contains(&e.key.field) {
+                        false
+                    } else {
+                        seen.push(e.key.field.clone());
+                        true
+                    }
+                })
+                .collect(),
+        )
+    });
+    (
+        prop::sample::select(vec!["o1", "objs"]),
+        prop::collection::vec((inner_block, prop::bool::weighted(0.2), prop::bool::weighted(0.15)), 3..=6),
+        shape(false, with_neg, false),
+        0u8..6,
+    )
+        .prop_map(move |(holder, blocks, sh, form)| {
+            let names: Vec<String> = IDENT_NAMES_PLAIN.iter().take(blocks.len()).map(|s| s.to_string()).collect();
+            let idents: Vec<(String, Body)> = names
+                .iter()
+                .cloned()
+                .zip(blocks.into_iter().map(|(b, as_seq, extra)| {
+                    let nested = Block(vec![Entry { key: KeySpec::plain(holder), val: ValSpec::Block(b.clone()) }]);
+                    if as_seq {
+                        Body::Seq(vec![nested.clone(), nested])
+                    } else if extra {
+                        // a second, flat entry next to the nested block
+                        let mut n = nested;
+                        n.0.push(Entry { key: KeySpec::plain("f1"), val: ValSpec::Str("a".into()) });
+                        Body::Map(n)
+                    } else {
+                        Body::Map(nested)
+                    }
+                }))
+                .collect();
+            let id = |i: usize| CondSpec::Ident(names[i % names.len()].clone());
+            let chain = |from: usize, to: usize, and: bool| -> CondSpec {
+                let mut c = id(from);
+                for i in from + 1..to {
+                    c = if and {
+                        CondSpec::And(Box::new(c), Box::new(id(i)))
+                    } else {
+                        CondSpec::Or(Box::new(c), Box::new(id(i)))
+                    };
+                }
+                c
+            };
+            let n = names.len();
+            let k = (n / 2).max(2).min(n - 1);
+            let cond = match form {
+                // (A and B and ..) or rest..
+                0 => {
+                    let mut c = CondSpec::Paren(Box::new(chain(0, k + 1, true)));
+                    for i in k + 1..n {
+                        c = CondSpec::Or(Box::new(c), Box::new(id(i)));
+                    }
+                    if n == k + 1 {
+                        CondSpec::Or(Box::new(c), Box::new(id(0)))
+                    } else {
+                        c
+                    }
+                }
+                // (A or B or ..) and rest..
+                1 => {
+                    let mut c = CondSpec::Paren(Box::new(chain(0, k + 1, false)));
+                    for i in k + 1..n {
+                        c = CondSpec::And(Box::new(c), Box::new(id(i)));
+                    }
+                    c
+                }
+                2 => chain(0, n, true),
+                3 => chain(0, n, false),
+                _ => resolve_shape(&sh, &names),
+            };
+            let cond = if with_neg && form == 2 { CondSpec::Not(Box::new(CondSpec::Paren(Box::new(cond)))) } else { cond };
+            RuleSpec { idents, cond }
+        })
+        .boxed()
+}
+
+/// Documents for nested-focus rules: the holder is an object or an array of 1-4 objects, each
+/// element built from a few of the rule's inner predicates (made true or nearly true), so that
+/// different elements satisfy different blocks.
+pub fn nested_docs(rule: &RuleSpec, picks: &[(u16, u8)]) -> Vec<DObj> {
+    let leaves: Vec<Leaf> = collect_leaves(rule).into_iter().filter(|l| !l.prefix.is_empty()).collect();
+    let holder = leaves.first().map(|l| l.prefix[0].clone()).unwrap_or_else(|| "o1".to_string());
+    let mut docs = vec![DObj::default()];
+    if leaves.is_empty() {
+        return docs;
+    }
+    let mut it = picks.iter();
+    for shape in 0..6u8 {
+        let n_elems = match shape {
+            0 => 0,
+            1 | 2 => 1,
+            3 => 2,
+            4 => 3,
+            _ => 4,
+        };
+        let mut elems = vec![];
+        for _ in 0..n_elems.max(1) {
+            let mut o = DObj::default();
+            for _ in 0..2 {
+                if let Some((p, v)) = it.next() {
+                    let leaf = &leaves[(*p as usize * leaves.len()) >> 16];
+                    let inner = Leaf { prefix: vec![], ..leaf.clone() };
+                    place(&mut o, &inner, Some(value_for(&inner, v % 4 != 0, *v)), false);
+                }
+            }
+            elems.push(DocVal::Obj(o));
+        }
+        let mut d = DObj::default();
+        d.set("f1", DocVal::s("a"));
+        match shape {
+            0 => d.set(&holder, DocVal::Arr(DArr(vec![]))),
+            1 => d.set(&holder, elems.into_iter().next().unwrap()),
+            _ => {
+                if shape == 5 {
+                    elems.insert(1, DocVal::s("not an object"));
+                }
+                d.set(&holder, DocVal::Arr(DArr(elems)))
+            }
+        }
+        docs.push(d);
+    }
+    docs
+}
+
 /// Wide or-groups: many entries on one field (around the optimiser's 256-entry matrix guard) or
 /// many distinct fields (matrix column keys beyond the ASCII range), as a sequence identifier.
 pub fn rule_wide() -> BoxedStrategy<RuleSpec> {
-    (prop::sample::select(vec![100usize, 127, 128, 129, 140, 254, 255, 256, 257, 300]), 0u8..3, any::<bool>(), any::<u8>())
+    (
+        prop::sample::select(vec![100usize, 127, 128, 129, 140, 200, 254, 255, 256, 257, 258, 300, 300, 320, 380]),
+        prop::sample::select(vec![0u8, 1, 1, 1, 2]),
+        any::<bool>(),
+        any::<u8>(),
+    )
         .prop_map(|(n, kind, negate, salt)| {
             let mut blocks = vec![];
             for i in 0..n {
@@ -655,21 +838,18 @@ pub fn wide_docs(rule: &RuleSpec, picks: &[u16]) -> Vec<DObj> {
         if leaves.is_empty() {
             break;
         }
-        // every other pick lands in the last sixth of the leaves (beyond 128 / 256 columns)
-        let i = if p % 2 == 0 {
-            (*p as usize * leaves.len()) >> 16
-        } else {
-            leaves.len() - 1 - ((*p as usize * (leaves.len() / 6).max(1)) >> 16)
-        };
+        // uniform over the leaves: column order is not leaf order, so no region is privileged
+        let i = (*p as usize * leaves.len()) >> 16;
         let mut d = DObj::default();
-        place(&mut d, &leaves[i], Some(value_for(&leaves[i], true, (*p % 7) as u8)), false);
-        // the neighbouring leaf of the same block, so that two-entry blocks can match
+        // neighbours first, the picked leaf last, so that a shared field ends up satisfying the
+        // picked predicate; together with a neighbour a two-entry block can match
+        if i > 0 {
+            place(&mut d, &leaves[i - 1], Some(value_for(&leaves[i - 1], true, 0)), false);
+        }
         if i + 1 < leaves.len() {
             place(&mut d, &leaves[i + 1], Some(value_for(&leaves[i + 1], true, 0)), false);
         }
-        if i > 0 {
-            place(&mut d, &leaves[i - 1], Some(value_for(&leaves[i - 1], *p % 2 == 0, 0)), false);
-        }
+        place(&mut d, &leaves[i], Some(value_for(&leaves[i], true, (*p % 3) as u8)), false);
         out.push(d);
     }
     out
